@@ -2288,6 +2288,11 @@ evhttp_parse_headers_(struct evhttp_request *req, struct evbuffer* buffer)
 			goto error;
 		}
 
+		/* a NUL byte would silently truncate the field (RFC 9110 5.5:
+		 * reject, or replace by SP) */
+		if (strlen(line) != len)
+			goto error;
+
 		if (*line == '\0') { /* Last header - Done */
 			status = ALL_DATA_READ;
 			mm_free(line);
